@@ -162,6 +162,12 @@ class CaseTag(Tag):
                     token=block_token,
                 )
 
+        # The first `when`, `else` or `endcase` tag is not reached via `parse_block`,
+        # so its right whitespace control has not been carried to the stream yet.
+        first_tag = stream.current()
+        if isinstance(first_tag, TagToken):
+            stream.trim_carry = first_tag.wc[-1]
+
         whens: list[MultiExpressionBlockNode] = []
         default: BlockNode | None = None
 
